@@ -15,7 +15,11 @@ LAYOUT = ["ndx.reshape(a, [-1])", "ndx.reshape(a, [-1], copy=True)", "ndx.flip(a
           "ndx.astype(a, a.dtype)", "ndx.astype(a, ndx.float64)", "ndx.concat([a, a])", "ndx.stack([a, a])", "ndx.take(a, ndx.asarray(np.array([0])), axis=0)",
           "ndx.where(a == a, a, a)", "ndx.sort(a)", "ndx.cumulative_sum(a, axis=0)", "ndx.sum(a, axis=0, keepdims=True)", "ndx.max(a, axis=0, keepdims=True)",
           "ndx.broadcast_arrays(a, a)[0]", "ndx.unique_values(a)", "ndx.clip(a, min=0, max=2)", "ndx.tril(ndx.reshape(a, [1, -1]))", "a + 0", "a * 1", "ndx.add(a, a)",
-          "ndx.logical_and(a > 0, True)", "ndx.logical_or(a > 0, False)", "ndx.full_like(a, 1)", "ndx.zeros_like(a)", "ndx.matrix_transpose(ndx.reshape(a, [1, -1]))"]
+          "ndx.logical_and(a > 0, True)", "ndx.logical_or(a > 0, False)",
+          # identity shortcuts applied to the argument itself (boolean arrays): the result must still be a new value
+          "ndx.logical_and(a, True)", "ndx.logical_and(True, a)", "ndx.logical_or(a, False)", "ndx.logical_or(False, a)", "a & True", "False | a",
+          "ndx.logical_and(a, ndx.asarray(np.array([True])))", "ndx.logical_or(ndx.asarray(np.array(False)), a)", "ndx.logical_xor(a, False)",
+          "ndx.where(ndx.asarray(np.array(True)), a, a)", "ndx.where(ndx.asarray(np.array([False])), a, a)", "ndx.full_like(a, 1)", "ndx.zeros_like(a)", "ndx.matrix_transpose(ndx.reshape(a, [1, -1]))"]
 
 
 def alias_cases(rnd):
@@ -23,7 +27,10 @@ def alias_cases(rnd):
     exprs = [f"ndx.{f}(a)" for f in UNARY_FUNCS] + LAYOUT
     for e in exprs:
         for d in ("int64", "float64", "bool", "nint32"):
-            if d == "bool" and not any(t in e for t in ("logical_not", "bitwise_invert", "reshape", "flip", "expand", "a[", "copy", "concat", "stack", "permute", "where", "broadcast", "astype(a, a.dtype)", "take", "squeeze")):
+            bool_only = any(t in e for t in ("logical_and(a,", "logical_and(True", "logical_or(a,", "logical_or(False", "a & True", "False | a", "logical_or(ndx.asarray", "logical_xor(a"))
+            if bool_only and d != "bool":
+                continue
+            if d == "bool" and not bool_only and not any(t in e for t in ("logical_not", "bitwise_invert", "reshape", "flip", "expand", "a[", "copy", "concat", "stack", "permute", "where", "broadcast", "astype(a, a.dtype)", "take", "squeeze")):
                 continue
             if d != "bool" and any(t in e for t in ("logical_not",)):
                 continue
